@@ -12,10 +12,10 @@ META = {
     "shards": {"quick": 16, "thorough": 8},
     "exhaustive_within_bound": True,
     "bounds": {
-        "quick": "every lint-legal acyclic circuit over N=4 ordered names (edges only from lower to higher index): all presence/type/output/edge combinations; inputs=False with all 14 types (incl. blackbox pins), inputs=True with blackbox-free types; repeated application (second call)",
+        "quick": "every lint-legal acyclic circuit over N=4 names, created in topological and in reverse topological order: all presence/type/output/edge combinations; inputs=False with all 14 types (incl. blackbox pins), inputs=True with blackbox-free types; repeated application (second call)",
         "thorough": "N=5",
     },
-    "outside": ["more than N nodes", "cyclic circuits", "edges against the fixed node order (every DAG has such an order, so only the naming is fixed)"],
+    "outside": ["more than N nodes", "cyclic circuits", "creation orders other than: topological, reverse topological (thorough: one interleaved order)"],
     "assumptions": ["SymDiGraph stand-in for networkx.DiGraph (validated by a conformance replay against real networkx on every path)", "specs.py definitions of liveness/legality", "z3 sound"],
     "rule": "state = explored path (class of pre-states that drive the real code the same way); transition = solver-decided branch",
 }
@@ -29,6 +29,10 @@ def all_cases(ctx):
     # bit-reversed order: the low-order bits (first decisions) decide the size of a sub-tree; spread them over the shards
     ks = [int(format(k, f"0{sb}b")[::-1], 2) for k in range(1 << sb)]
     cs = [(("remove_unloaded", N, inputs, k), (N, inputs, sb, k)) for k in ks for inputs in (False, True)]
+    # the same universe with the edges running AGAINST the iteration (= creation) order of the graph: drivers created after their
+    # loads, as in parsed or incrementally wired netlists (thorough: also an interleaved order)
+    for order in (("rev",) if ctx.quick else ("rev", "mixed")):
+        cs += [(("remove_unloaded", N, inputs, k, order), ((N, order), inputs, sb, k)) for k in ks for inputs in (False, True)]
     # a circuit with a registered blackbox instance `bb` AND an ordinary node that is also called `bb` (legal: only pin names are checked)
     cs += [(("remove_unloaded", "bbname", False, k), ("bbname", False, 4, k)) for k in range(16)]
     return cs
@@ -40,16 +44,21 @@ def run(ctx):
     ctx.functions(cg.Circuit.remove_unloaded, cg.Circuit.remove, cg.Circuit.fanin, cg.Circuit.fanout, cg.Circuit.is_output, cg.Circuit.type)
     for cid, (N, inputs, sb, k) in ctx.cases(all_cases(ctx)):
         registry = {}
+        D = None  # direction of the edges; default: the iteration order U
         if N == "bbname":
             U = ["bb.o", "a", "bb", "n", "bb.i"]
             registry = {"bb": (["i"], ["o"])}
+        elif isinstance(N, tuple):
+            U = [f"n{i}" for i in range(N[0])]
+            D = list(reversed(U)) if N[1] == "rev" else [U[i] for i in ([1, 3, 0, 2, 4][:len(U)] if len(U) > 3 else [1, 0, 2][:len(U)])]
         else:
             U = [f"n{i}" for i in range(N)]
         vars_ = sg.make_vars(U, self_loops=False)
         P, T, O, E = vars_
         OM = {n: z3.Bool(f"OM!{n}") for n in U}  # node without an `output` attribute (is_output() treats it as not an output)
         types = [t for t in sg.TYPES if inputs is False or t not in ("bb_input", "bb_output")]
-        pre = sg.base_pre(vars_, types=types, dag_order=U)
+        D = D or U
+        pre = sg.base_pre(vars_, types=types, dag_order=D)
         A = e2.acc_pre(vars_, OM)
         pre.append(specs.legal_wiring(U, A.present, A.typ, A.edge))
         if registry:
@@ -62,14 +71,14 @@ def run(ctx):
             r2 = c.remove_unloaded(inputs=inputs)
             return {"first": list(r1), "second": list(r2)}
 
-        def posts(pre_, post, out, names, c, inputs=inputs, U=U, registry=registry):
+        def posts(pre_, post, out, names, c, inputs=inputs, U=U, registry=registry, D=D):
             res = []
             if out.kind != "ok":
                 return [("returns", z3.BoolVal(False), "remove_unloaded:raises", f"remove_unloaded raised {out.exc}: {out.ret}")]
             r1, r2 = out.ret["first"], out.ret["second"]
             live = {}
-            for v in reversed(U):
-                live[v] = z3.And(pre_.present(v), z3.Or([pre_.out(v), pre_.typ(v) == TS["bb_input"]] + [z3.And(pre_.edge(v, w), live[w]) for w in U if U.index(w) > U.index(v)]))
+            for v in reversed(D):
+                live[v] = z3.And(pre_.present(v), z3.Or([pre_.out(v), pre_.typ(v) == TS["bb_input"]] + [z3.And(pre_.edge(v, w), live[w]) for w in D if D.index(w) > D.index(v)]))
             keep_types = [TS["bb_input"], TS["bb_output"]] + ([] if inputs else [TS["input"]])
             removed = {v: z3.And(pre_.present(v), z3.Not(post.present(v))) for v in U}
             for v in U:
